@@ -54,6 +54,9 @@ func runC03(c *Ctx) {
 			g := &generator{rng: rng, p: p, sch: sch, k: defaultKnobs(), now: 0x36000000}
 			g.k.noTimeNoise = true
 			g.k.pNarrow = 0
+			// a time reference, so that compressed-timestamp headers are meaningful
+			s.Def(0, arch, 20, []FieldDef{{253, 4, 0x86}}, nil)
+			s.Data(0, wire(u32le(0x36000000), arch))
 			for _, it := range items {
 				l := 1 + rng.Intn(15)
 				pm := p.by[it.m]
@@ -90,7 +93,14 @@ func runC03(c *Ctx) {
 						s.Data(l, wire(u16le(uint16(1+rng.Intn(200))), arch))
 					}
 				} else {
-					s.Data(l, g.payloadFor(s.defs[l]))
+					// some records arrive behind a compressed-timestamp header
+					if rng.Intn(3) == 0 {
+						lc := 1 + rng.Intn(3)
+						s.Def(lc, arch, uint16(it.m), fs, nil)
+						s.Compressed(lc, rng.Intn(32), g.payloadFor(s.defs[lc]))
+					} else {
+						s.Data(l, g.payloadFor(s.defs[l]))
+					}
 				}
 			}
 			id++
